@@ -316,6 +316,15 @@ class TapeRecorder(object):
         # We don't want interception inside interception (inception)
         return not self._currently_in_interception and (self.in_recording_mode or self.in_playback_mode)
 
+    def _discard_recording_that_misses_interception(self):
+        """
+        An interception that is invoked while an operation is being recorded, after recording was disabled, is not
+        captured. The recording would miss it and fail its playback, hence it is discarded as a whole
+        """
+        if self._active_recording is not None and not self.recording_enabled and \
+                not self._currently_in_interception and not self.in_playback_mode:
+            self.discard_recording()
+
     def operation(self, metadata_extractor=None):
         """
         :param metadata_extractor: Extracts metadata from the operation when an invocation is recorded
@@ -648,6 +657,7 @@ class TapeRecorder(object):
 
             def decorated_function(*args, **kwargs):
                 if not self._should_intercept:
+                    self._discard_recording_that_misses_interception()
                     return func(*args, **kwargs)
 
                 # If same alias (function) is invoked more than once we want to track each output invocation, the number is
@@ -723,6 +733,7 @@ class TapeRecorder(object):
 
             def decorated_function(*args, **kwargs):
                 if not self._should_intercept:
+                    self._discard_recording_that_misses_interception()
                     return func(*args, **kwargs)
 
                 try:
